@@ -298,7 +298,7 @@ pub fn random_tree(rng: &mut Rng, d: Dialect, depth: usize) -> X {
             _ => X::Int(1),
         };
     }
-    let mut sub = |rng: &mut Rng| random_tree(rng, d, depth - 1);
+    let sub = |rng: &mut Rng| random_tree(rng, d, depth - 1);
     match rng.below(14) {
         0..=5 => {
             let ops = plain_ops(d);
